@@ -78,9 +78,17 @@ def ensure_makefile():
             raise Internal('coq_makefile failed: ' + out)
 
 
+EXEC_TARGETS = ['spec/Spec.vo', 'model/Run.vo', 'model/MacroData.vo', 'model/Tokens.vo']
+
+
 def step_make(targets):
+    """Builds the executable part of the development first (model and specification oracle: the
+    correspondence evaluates them even when a proof no longer checks), then the property's theorems."""
     ensure_makefile()
-    rc, out = sh('timeout 1500 make -j16 %s' % ' '.join(targets), cwd=COQ, timeout=1600)
+    rc0, out0 = sh('timeout 1500 make -j16 %s' % ' '.join(EXEC_TARGETS), cwd=COQ, timeout=1600)
+    rc, out = sh('timeout 1500 make -j16 -k %s' % ' '.join(targets), cwd=COQ, timeout=1600) if targets else (0, '')
+    if rc0 != 0:
+        return False, 'the model or the specification oracle no longer compiles: ' + out0[-1500:]
     return rc == 0, out
 
 
@@ -178,6 +186,50 @@ def prepare_harness_sources():
 
 
 # ------------------------------------------------------------------------------- correspondence
+
+def in_tags(sp, tags):
+    """tags: property numbers, or (property number, reason code) pairs for a single kind of failure."""
+    for t in tags:
+        if isinstance(t, (tuple, list)):
+            if sp['prop'] == t[0] and sp['reason'] == t[1]:
+                return True
+        elif sp['prop'] == t:
+            return True
+    return False
+
+
+
+def direct_origins(w, ops, obs):
+    """For every direct handle the run language has recorded so far (reference ('d', k)): the kind of the
+    operation that issued it (todirect / find / iter / iterd)."""
+    out = []
+    for o, ob in zip(ops, obs):
+        if not ob:
+            continue
+        if o[0] == 'todirect' and ob[0] == 1:
+            out.append('todirect')
+        elif o[0] in ('find', 'iter', 'iterd'):
+            params = w.queries[o[1]]
+            dpos = sum(1 for p in params if p[0].startswith('dir'))
+            if not dpos:
+                continue
+            n = 0
+            if o[0] == 'find':
+                n = 1 if ob[0] == 1 else 0
+            else:
+                i = 1 if ob[0] == 1 else 2
+                if ob[0] in (1, 2) and len(ob) > i:
+                    n = ob[i]
+            out += [o[0]] * (n * dpos)
+    return out
+
+
+def direct_ref_of(o):
+    for x in o:
+        if isinstance(x, tuple) and len(x) == 2 and x[0] == 'd':
+            return x[1]
+    return None
+
 
 def case_key(case):
     return hashlib.sha256(('\n'.join(O.to_rust(o) for o in case['ops'])).encode()).hexdigest()
@@ -312,7 +364,7 @@ def spec_failure_of(case, cfg, tags, tag):
         return None
     nums = [int(x) for x in re.findall(r'\d+', s)]
     sp = dict(index=nums[0], prop=nums[1], reason=nums[2])
-    if tags is None or sp['prop'] in tags:
+    if tags is None or in_tags(sp, tags):
         return sp
     return None
 
@@ -510,7 +562,18 @@ def check(pid, tier, seed):
         c, v = macro_diffs[0]
         broken.append(('correspondence', 'macro model and macro code disagree on `%s`: implementation %s, model %s' % (c['line'], c['impl'], v)))
     # 1. observations the specification forbids (for this property)
-    own = [r for r in all_results if r['spec'] and r['spec']['prop'] in P['tags']]
+    own = [r for r in all_results if r['spec'] and in_tags(r['spec'], P['tags'])]
+    if pid == 'C07':
+        # C07's last clause: a direct handle the loop hands to the closure designates the visited entity.
+        # The oracle reports such failures under C09; they are C07's when the handle was issued by ecs_iter_destroy!.
+        for r in all_results:
+            sp, c = r['spec'], r['case']
+            if sp and sp['prop'] == 9 and r not in own and sp['index'] < len(c['ops']):
+                k = direct_ref_of(c['ops'][sp['index']])
+                org = direct_origins(WORLDS[c['world']], c['ops'], c['obs'])
+                if k is not None and k < len(org) and org[k] == 'iterd':
+                    r['as_tags'] = [9]
+                    own.append(r)
     # 2. model / implementation disagreements, decl mismatches, deaths
     diffs = [r for r in all_results if r['diff'] is not None or r['case'].get('died') or r['case'].get('decl_mismatch')]
 
@@ -519,7 +582,7 @@ def check(pid, tier, seed):
         w = WORLDS[c['world']]
         cfg = CONFIGS[c['config']]['cfg']
         sp = r['spec']
-        tags = P['tags']
+        tags = r.get('as_tags') or P['tags']
         ops_min = minimise(r['binary'], w, cfg, c['ops'][:sp['index'] + 1],
                            lambda cc: spec_failure_of(cc, cfg, tags, 'min-' + pid) is not None)
         cc = session.replay_ops(r['binary'], w, ops_min)
@@ -575,7 +638,7 @@ def check(pid, tier, seed):
                 continue
             for k in range(1, 3):
                 res, _ = run_streams(pid, P['streams'], cfgname, binary, seed + 7919 * k, 2, corpus=False)
-                hit = [r for r in res if r['spec'] and r['spec']['prop'] in P['tags']]
+                hit = [r for r in res if r['spec'] and in_tags(r['spec'], P['tags'])]
                 if hit:
                     hit[0]['binary'] = binary
                     found = hit[0]
@@ -666,6 +729,9 @@ def c18_corpus_run():
 def replay(path):
     j = json.load(open(path))
     pid = j['property']
+    # the model the replay is compared with is the one translated from the current source
+    step_extract()
+    step_make([])
     if j.get('harness') == 'c18':
         d = j['detail']
         if d['kind'] == 'corpus':
@@ -720,7 +786,12 @@ def replay(path):
         print('%-40s => %s' % (O.to_rust(o), ob))
     print('model agreement:', 'yes' if r['diff'] is None else r['diff'])
     print('specification oracle:', r['spec'])
-    if (r['spec'] and r['spec']['prop'] in PROPS[pid]['tags']) or (pid == 'C11' and r['diff'] is not None):
+    c07_direct = False
+    if pid == 'C07' and r['spec'] and r['spec']['prop'] == 9 and r['spec']['index'] < len(c['ops']):
+        k = direct_ref_of(c['ops'][r['spec']['index']])
+        org = direct_origins(w, c['ops'], c['obs'])
+        c07_direct = k is not None and k < len(org) and org[k] == 'iterd'
+    if (r['spec'] and in_tags(r['spec'], PROPS[pid]['tags'])) or c07_direct or (pid == 'C11' and r['diff'] is not None):
         print('VIOLATION property=%s replay=%s' % (pid, path))
         return 1
     return 0
